@@ -229,6 +229,7 @@ type AdmitCase struct {
 	NSLabels            map[string]string
 	NSErr               bool
 	NSErrKind           int                // index into nsErrKinds
+	AttrNoise           int                // request attributes outside every property: 1 = resource version v1beta1, 2 = kind of another API group, 3 = kind version v2
 	NSMeta              int                // state of the looked-up namespace object outside its labels (nsObject); never sent to the model
 	CtxCancelled        bool               // the request's context is already cancelled when Validate is called
 	cancelRequest       context.CancelFunc // set by runGo
@@ -491,6 +492,14 @@ func (a *AdmitCase) attributes() *attrs {
 	at := &attrs{AttributesRecord: api.AttributesRecord{Name: a.Name, Namespace: a.NS, Kind: kind,
 		Resource: schema.GroupVersionResource{Group: groupOf(a.Res), Version: "v1", Resource: a.Res}, Subresource: a.Sub, Operation: a.Op, Username: a.User,
 		Object: a.Obj.runtimeObject(), OldObject: a.Old.runtimeObject()}}
+	switch a.AttrNoise {
+	case 1:
+		at.Resource.Version = "v1beta1"
+	case 2:
+		at.Kind = schema.GroupVersionKind{Group: "apps", Version: "v1", Kind: "Deployment"}
+	case 3:
+		at.Kind.Version = "v2"
+	}
 	at.objErr = a.Obj.Kind == "err"
 	at.oldErr = a.Old.Kind == "err"
 	return at
